@@ -159,7 +159,7 @@ TRUSTED = [
     "str.lower / str.strip / \\d on non-ASCII characters outside the model alphabet (DESIGN §4) are not modelled",
 ]
 ASSUMPTIONS = [
-    "platform_aware=True: the ORACLE demands the deletion-only clauses only where the facebook/youtube branch leaves the URL alone; where it fires it demands totality (the design findings KF-C03-2 / KF-C04-4 / KF-C06-4 = D53 say why). The MODEL says what happens there: the result is glued from deletions of the pieces of the canonical platform url (normalize_pa_only_deletes_or_rewrites), i.e. normalize_url of p.url / of normalize_youtube_url(url) (normalize_pa_eq_normalize_canonical)",
+    "platform_aware=True: the ORACLE demands the deletion-only clauses only where the string handed to the branch is no facebook / youtube url; on such urls it demands totality, 'unparseable => unchanged' and a host clause weaker than the property's (the input host OR the canonical platform host, minus irrelevant labels) (the design findings KF-C03-2 / KF-C04-4 / KF-C06-4 = D53 say why). The MODEL says what happens there: the result is glued from deletions of the pieces of the canonical platform url (normalize_pa_only_deletes_or_rewrites), i.e. normalize_url of p.url / of normalize_youtube_url(url) (normalize_pa_eq_normalize_canonical)",
     "paths of URLs without authority that do not start with '/' (mailto:x, custom:a/b) are outside the path clause of the oracle",
 ]
 UNPROVED = (
@@ -480,6 +480,39 @@ def _path_candidates(R, o):
     return S
 
 
+def _oracle_platform(tag, url, o, ensured, canonical_host, out_t, out_s):
+    """platform_aware=True on a facebook / youtube url: the branch may replace the url by the
+    canonical url of what the platform parser recognises (design finding D53), so the deletion
+    clauses are not demanded of the input's pieces.  Demanded — a DISJUNCTION one of whose members
+    is the property's own host clause, hence no more than the property states: an input that parses
+    gives a result whose host is the input's host, or the canonical platform host
+    (www.facebook.com / www.youtube.com), minus whole irrelevant labels / a leading 'amp-'; an
+    unparseable input is returned unchanged (the model's normalize_pa_only_deletes_or_rewrites says
+    what the other components are)."""
+    from urllib.parse import urlsplit
+
+    try:
+        r = urlsplit(ensured)
+        in_host, _ = r.hostname, r.port
+    except ValueError:
+        if out_s != url or out_t != url:
+            return "%s = %r / %r: an unparseable URL must be returned unchanged" % (tag, out_s, out_t)
+        return None
+    if isinstance(out_t, str):
+        return "%s returned the string %r for unsplit=False although the input parses" % (tag, out_t)
+    if not in_host or not (in_host.isascii() or nc.in_model_alphabet(in_host)):
+        return None
+    try:
+        out_host = urlsplit("//" + out_t.netloc).hostname or ""
+    except ValueError:
+        return None
+    cands = set(_host_candidates(in_host, o)) | set(_host_candidates(canonical_host, o))
+    if out_host not in set(x.lower() for x in cands) and out_host not in cands:
+        return "%s: host %r is neither the input host %r nor the canonical platform host %r minus whole irrelevant labels / a leading 'amp-' (allowed: %s)" % (
+            tag, out_host, in_host, canonical_host, sorted(cands)[:8])
+    return None
+
+
 def oracle(case):
     if case["kind"] != "url":
         return None
@@ -506,10 +539,12 @@ def oracle(case):
     ensured = c if had_proto else "http://" + c
     if o["platform_aware"]:
         try:
-            if is_facebook_url(ensured) or is_youtube_url(ensured):
-                return None  # partial: the platform branch may rewrite the URL
+            fb, yt = is_facebook_url(ensured), is_youtube_url(ensured)
         except Exception:  # noqa
             return None
+        if fb or yt:
+            # partial: the platform branch may rewrite the URL
+            return _oracle_platform(tag, url, o, ensured, "www.facebook.com" if fb else "www.youtube.com", out_t, out_s)
     try:
         r = urlsplit(ensured)
         in_user, in_pass, in_host, in_port = r.username, r.password, r.hostname, r.port
